@@ -1092,6 +1092,27 @@ CASES = [
  dict(name="c13-seconds-of-day-without-minutes", ids=["C13"], rule="C13.R4f", subs=[(SFH, "static_cast<uint32_t>((time_info.tm_hour * 3600) + (time_info.tm_min * 60) + time_info.tm_sec);", "static_cast<uint32_t>((time_info.tm_hour * 3600) + (time_info.tm_min * 60));")]),
  dict(name="c20-free-reads-length-from-offset-slot", ids=["C20"], rule="C20.R6b", subs=[(B, "    std::memcpy(&total_size, static_cast<std::byte*>(ptr) - sizeof(size_t), sizeof(total_size));", "    std::memcpy(&total_size, static_cast<std::byte*>(ptr) - (2u * sizeof(size_t)), sizeof(total_size));")]),
  dict(name="c20-munmap-length-is-offset", ids=["C20"], rule="C20.R6b", subs=[(B, "    ::munmap(mem, total_size);", "    ::munmap(mem, offset);")]),
+ dict(name="c12-colon-offset-first-colon", ids=["C12"], rule="C12.R6w", subs=[("core/MacroMetadata.h", "    auto const separator_index = source_loc.rfind(':');", "    auto const separator_index = source_loc.find(':');")]),
+ dict(name="c12-file-name-offset-keeps-separator", ids=["C12"], rule="C12.R6w", subs=[("core/MacroMetadata.h", """      if (cur == '/' || cur == PATH_PREFERRED_SEPARATOR)
+      {
+        file = source_location;""", """      if (cur == '/' || cur == PATH_PREFERRED_SEPARATOR)
+      {
+        file = source_location - 1;""")]),
+ dict(name="c12-file-name-offset-first-separator", ids=["C12"], rule="C12.R6w", subs=[("core/MacroMetadata.h", """      if (cur == '/' || cur == PATH_PREFERRED_SEPARATOR)
+      {
+        file = source_location;""", """      if ((cur == '/' || cur == PATH_PREFERRED_SEPARATOR) && (file == _source_location))
+      {
+        file = source_location;""")]),
+ dict(name="c01-is_power_of_two-accepts-zero", ids=["C01"], rule="C01.R5e", subs=[("core/MathUtilities.h", "  return (number != 0) && ((number & (number - 1)) == 0);", "  return ((number & (number - 1)) == 0);")]),
+ dict(name="c01-max_power_of_two-off-by-one-bit", ids=["C01"], rule="C01.R5e", subs=[("core/MathUtilities.h", "  return (std::numeric_limits<T>::max() >> 1) + 1;", "  return (std::numeric_limits<T>::max() >> 2) + 1;")]),
+ dict(name="c10-prefix-notifier-not-normalised", ids=["C10"], rule="C10.R8", subs=[("backend/BackendWorker.h", """    if (!_options.error_notifier)
+    {
+      // an undefined error_notifier disables the notifications, see BackendOptions::error_notifier
+      _options.error_notifier = [](std::string const&) {};
+    }
+
+""", "")]),
+ dict(name="c10-notifier-normalised-on-the-wrong-outcome", ids=["C10"], rule="C10.R8", subs=[("backend/BackendWorker.h", "    if (!_options.error_notifier)\n    {\n      // an undefined", "    if (_options.error_notifier)\n    {\n      // an undefined")]),
  dict(name="c13-localtime_rs-calls-gmtime_r", ids=["C13"], rule="C13.R7a", subs=[("core/TimeUtilities.h", "  tm* res = localtime_r(timer, buf);", "  tm* res = gmtime_r(timer, buf);")]),
  dict(name="c13-timegm-via-mktime", ids=["C13"], rule="C13.R7a", subs=[("core/TimeUtilities.h", "  time_t const ret_val = ::timegm(tm);", "  time_t const ret_val = ::mktime(tm);")]),
  dict(name="c13-timegm-failure-returned", ids=["C13"], rule="C13.R7c", subs=[("core/TimeUtilities.h", """  if (QUILL_UNLIKELY(ret_val == (time_t)-1))
